@@ -112,11 +112,107 @@ def _filter_verdict(prog, text):
 from ..fsmodel import FileSystemModel, _PathModel  # noqa: E402,F401  (re-exported: the checks import it from here)
 
 
+def patch_isolation_on_models(prog):
+    """Biomolecule.apply_patch evaluated on two model residues that share one reference topology (as all residues of a type do): a patch that
+    adds an atom, removes one and adds a torsion is applied to the first, in four histories (no patch before / PEPTIDE before; residue with or
+    without the removed atom).  -> list of problems ('' entries never); raises AnalysisError if not evaluable."""
+    import copy as _copy
+
+    from ..guards import Flow, Obj
+    from ..objinterp import ObjRunner
+    problems = []
+    for peptide_first in (False, True):
+        for has_removed in (True, False):
+            ref = Obj({"__class__": "DefinitionResidue", "name": "CYS", "dihedrals": ["N CA CB SG"],
+                       "map": {n: Obj({"__class__": "DefinitionAtom", "name": n, "bonds": list(b)}) for n, b in
+                               (("N", ["CA"]), ("CA", ["N", "CB", "C"]), ("C", ["CA"]), ("CB", ["CA", "SG"]), ("SG", ["CB", "HG"]), ("HG", ["SG"]))}})
+            ref["__props__"] = {}
+
+            def residue(tag, with_hg):
+                atoms = ["N", "CA", "C", "CB", "SG"] + (["HG"] if with_hg else [])
+                res = Obj({"__class__": "CYS", "name": "CYS", "__id__": tag, "reference": ref, "patches": [], "map": {}, "atoms": []})
+                for n in atoms:
+                    a = Obj({"__class__": "Atom", "name": n, "reference": ref["map"][n], "residue": res, "bonds": []})
+                    res["map"][n] = a
+                    res["atoms"].append(a)
+                return res
+
+            r1, r2 = residue("first", has_removed), residue("second", True)
+            patches = {
+                "MODEL": Obj({"__class__": "Patch", "name": "MODEL", "map": {"XS": Obj({"__class__": "DefinitionAtom", "name": "XS", "bonds": ["SG"]})},
+                              "remove": ["HG"], "dihedrals": ["CA CB SG XS"], "altnames": {}, "newname": ""}),
+                "PEPTIDE": Obj({"__class__": "Patch", "name": "PEPTIDE", "map": {"N+1": Obj({"__class__": "DefinitionAtom", "name": "N+1", "bonds": ["C"]})},
+                                "remove": [], "dihedrals": [], "altnames": {}, "newname": ""}),
+            }
+
+            def extra(runner, interp, call, args, kw):
+                nm = U(call.func)
+                if nm in ("copy.deepcopy", "deepcopy") and len(args) == 1:
+                    return _copy.deepcopy(args[0])
+                if isinstance(call.func, ast.Attribute):
+                    try:
+                        recv = interp.ev(call.func.value)
+                    except AnalysisError:
+                        return NotImplemented
+                    a_ = call.func.attr
+                    if isinstance(recv, dict) and recv.get("__class__") == "CYS":
+                        if a_ == "remove_atom":
+                            atom = recv["map"].pop(args[0], None)
+                            recv["atoms"][:] = [x for x in recv["atoms"] if x is not atom]
+                            return None
+                        if a_ == "get_atom":
+                            return recv["map"].get(args[0])
+                        if a_ == "has_atom":
+                            return args[0] in recv["map"]
+                        if a_ == "rename_atom":
+                            return None
+                    if isinstance(recv, dict) and recv.get("__class__") == "DefinitionResidue" and a_ == "has_atom":
+                        return args[0] in recv["map"]
+                return NotImplemented
+
+            run = ObjRunner(prog, "biomolecule.py", extra_hook=extra)
+            bio = Obj({"__class__": "Biomolecule", "patch_map": patches, "residues": [r1, r2]})
+            try:
+                if peptide_first:
+                    run.call(bio, "apply_patch", "PEPTIDE", r1)
+                    run.call(bio, "apply_patch", "PEPTIDE", r2)
+                run.call(bio, "apply_patch", "MODEL", r1)
+            except Flow as fl:
+                problems.append(f"apply_patch stops with {fl.value}")
+                continue
+            hist = f"{'after the PEPTIDE patch' if peptide_first else 'first patch'}, residue {'with' if has_removed else 'without'} the removed atom"
+            m1, m2 = r1["reference"]["map"], r2["reference"]["map"]
+            if "HG" in m1 or "XS" not in m1 or "HG" in m1.get("SG", {}).get("bonds", []) or "XS" not in m1.get("SG", {}).get("bonds", []) \
+                    or "CA CB SG XS" not in r1["reference"]["dihedrals"]:
+                problems.append(f"{hist}: the patched residue's own topology is not the patched one (atoms {sorted(m1)}, SG bonded to {m1.get('SG', {}).get('bonds')})")
+            if "HG" not in m2 or "XS" in m2 or "HG" not in m2["SG"]["bonds"] or "XS" in m2["SG"]["bonds"] or "CA CB SG XS" in r2["reference"]["dihedrals"]:
+                problems.append(f"{hist}: the patch leaks to the other residue of the same type (its topology now has atoms {sorted(m2)}, SG bonded to "
+                                f"{m2['SG']['bonds']}, torsions {r2['reference']['dihedrals']})")
+            if "XS" in patches["MODEL"]["map"] and patches["MODEL"]["map"]["XS"]["bonds"] != ["SG"]:
+                problems.append(f"{hist}: the patch definition itself was modified")
+            if "MODEL" not in r1["patches"] or "HG" in r1["map"]:
+                problems.append(f"{hist}: the patched residue keeps the removed atom or does not record the patch")
+    return problems
+
+
 def rule_patch_isolation(prog, rep, rid):
     """apply_patch must give every patched residue a private copy of its reference (only PEPTIDE is applied in place)."""
     r = rep.rule(rid, "patches act on a private copy of the residue's reference; only PEPTIDE edits the shared one", floor=2)
     fn = prog.func("biomolecule.py", "Biomolecule.apply_patch").node
     where = f"pdb2pqr/biomolecule.py:{fn.lineno} (Biomolecule.apply_patch)"
+    try:
+        problems = patch_isolation_on_models(prog)
+    except AnalysisError:
+        problems = None
+    if problems is not None:
+        r.add("in-place-only-for-PEPTIDE", not any("leaks" in p_ or "definition itself" in p_ for p_ in problems),
+              "apply_patch on two model residues sharing one topology, four histories: a patch applied to one never shows in the other's topology nor in the "
+              "patch definition" + ("" if not problems else " - NOT so: " + "; ".join(p_ for p_ in problems if "leaks" in p_ or "definition itself" in p_)[:400]), where)
+        own = [p_ for p_ in problems if "leaks" not in p_ and "definition itself" not in p_]
+        r.add("removals-on-working-copy", not own, "the patched residue's own topology gains the added atom, bond and torsion and loses the removed atom and its bonds"
+              + ("" if not own else " - NOT so: " + "; ".join(own)[:400]), where)
+        r.add("copy-exists", not problems, "decided on the model residues (see the two obligations above)", where)
+        return
     # the working reference: the name finally stored into residue.reference
     fin = [s for s in iter_stmts(fn.body) if isinstance(s, ast.Assign) and U(s.targets[0]) == "residue.reference"]
     if not fin or not isinstance(fin[-1].value, ast.Name):
@@ -661,3 +757,84 @@ def rule_bundled_tables_from_package(prog, rep, rid):
         text = got["__str__"] if isinstance(got, dict) else got
         r.add(key, text == f"{pkg}/dat/{want}", f"with files named like {want} (all spellings) in the working directory the lookup returns {text!r}; "
               f"expected the bundled {pkg}/dat/{want}", where)
+
+
+def add_hydrogens_on_models(prog):
+    """Biomolecule.add_hydrogens evaluated on model residues (the superposition stays uninterpreted): which missing atoms of the template are
+    built.  -> {case: (created names, expected names)}.  Cases: a free and a bridged cysteine missing HG and HB2, a serine missing HG (the same
+    hydrogen name on another residue), a residue that already has the hydrogen, a missing heavy atom (never built here), a hydrogen the
+    tetrahedral completion has just built, a hydrogen with fewer than three neighbours present (reported, not built)."""
+    from ..guards import Flow, Obj
+    from ..objinterp import ObjRunner
+    coords = {"coords": lambda a_: [a_["x"], a_["y"], a_["z"]]}
+    out = {}
+    cases = [
+        ("free cysteine", "CYS", False, ["N", "CA", "C", "O", "CB", "SG"], ["HG", "HB2"], {"HG", "HB2"}),
+        ("bridged cysteine", "CYS", True, ["N", "CA", "C", "O", "CB", "SG"], ["HG", "HB2"], {"HB2"}),
+        ("serine (HG on another residue)", "SER", False, ["N", "CA", "C", "O", "CB", "OG"], ["HG", "HB2"], {"HG", "HB2"}),
+        ("hydrogen already present", "SER", False, ["N", "CA", "C", "O", "CB", "OG", "HG"], ["HG", "HB2"], {"HB2"}),
+        ("missing heavy atom", "SER", False, ["N", "CA", "C", "O", "CB"], ["OG", "HB2"], {"HB2"}),
+        ("built by the tetrahedral completion", "ALA", False, ["N", "CA", "C", "O", "CB"], ["HB1", "HA"], {"HA"}),
+        ("too few neighbours", "GLY", False, ["N"], ["HA2"], set()),
+    ]
+    # every hydrogen of every amino-acid and nucleotide template: a residue with all heavy atoms and no hydrogen gets all of them
+    from ..tables import AMINO, NUCLEIC, Tables
+    t = Tables(prog.root)
+    for R in list(AMINO) + list(NUCLEIC):
+        ref_ = t.map.get(R)
+        ci = next(iter(prog.classes_by_name.get(R, [])), None)
+        if ref_ is None or ci is None:
+            continue
+        heavy = [n for n in ref_.atoms if not n.startswith("H")]
+        hyd = [n for n in ref_.atoms if n.startswith("H")]
+        if len(heavy) >= 3 and hyd:
+            cases.append((f"template {R}", R, False, heavy, hyd, set(hyd)))
+    for label, cls, bonded, present, missing, want in cases:
+        names = present + missing
+        tmap = {n: Obj({"__class__": "DefinitionAtom", "name": n, "coords": [float(len(n)), float(i), 1.0], "bonds": []}) for i, n in enumerate(names)}
+        atoms = {n: Obj({"__class__": "Atom", "name": n, "x": 1.0 * i, "y": 2.0, "z": 3.0, "bonds": [], "__props__": coords}) for i, n in enumerate(present)}
+        ref = Obj({"__class__": "DefinitionResidue", "map": tmap, "name": cls})
+        res = Obj({"__class__": cls, "name": cls, "reference": ref, "map": atoms, "atoms": list(atoms.values()), "peptide_n": None, "peptide_c": None,
+                   "res_seq": 5, "chain_id": "A", "ins_code": "", "ss_bonded": bonded, "ss_bonded_partner": None, "missing": [], "patches": [],
+                   "is_n_term": 0, "is_c_term": 0})
+        created = []
+
+        def extra(runner, interp, call, args, kw, res=res, ref=ref, created=created, present=present, label=label):
+            nm = U(call.func)
+            if nm.endswith("find_coordinates"):
+                return [9.0, 9.0, 9.0]
+            if isinstance(call.func, ast.Attribute):
+                try:
+                    recv = interp.ev(call.func.value)
+                except AnalysisError:
+                    return NotImplemented
+                a_ = call.func.attr
+                if recv is res:
+                    if a_ == "has_atom":
+                        return args[0] in res["map"]
+                    if a_ == "get_atom":
+                        return res["map"].get(args[0])
+                    if a_ == "create_atom":
+                        created.append(args[0])
+                        res["map"][args[0]] = Obj({"__class__": "Atom", "name": args[0], "x": 9.0, "y": 9.0, "z": 9.0, "bonds": [], "__props__": coords})
+                        return None
+                    if a_ == "rebuild_tetrahedral":
+                        return args[0] == "HB1" and label.startswith("built by")  # the completion reports that it has built this one itself
+                if recv is ref:
+                    if a_ == "get_nearest_bonds":
+                        return [n for n in present if n != args[0]][:4] + ["N+1"]
+                    if a_ == "has_atom":
+                        return args[0] in ref["map"]
+            if nm == "hasattr" and len(args) == 2:
+                return args[1] == "rebuild_tetrahedral" or (isinstance(args[0], dict) and args[1] in args[0])
+            return NotImplemented
+
+        run = ObjRunner(prog, "biomolecule.py", extra_hook=extra)
+        bio = Obj({"__class__": "Biomolecule", "residues": [res], "num_missing_heavy": 0})
+        try:
+            run.call(bio, "add_hydrogens")
+        except Flow as fl:
+            out[label] = (f"stops with {fl.value}", sorted(want))
+            continue
+        out[label] = (sorted(created), sorted(want))
+    return out
